@@ -434,6 +434,43 @@ async fn gen_case(r: &mut Rng, run: &mut Run, style: u64, nticks: usize) -> std:
     Ok(())
 }
 
+/// Fixed regression history run first on every tier: the sampling-filter boundaries
+/// (RTT exactly 10 000 / 10 001 / 0 ms, echo without a probe), a reset and the reconnect.
+async fn fixed_case(run: &mut Run) -> std::io::Result<()> {
+    let ids = [7u64, (1u64 << 32) + 5];
+    let t0 = 100_000u64;
+    let mut r = Rng::new(14);
+    let sim = Sim::new(&ids, t0).await?;
+    let mut g = Gen { sim, now: t0, ops: vec![], obs: vec![], planned: vec![], recent: vec![],
+        samples: 0, rejected: 0, ka_frames: 0, reg2_frames: 0, live_ticks: 0, link_samples: vec![0; 2] };
+    let (none, all, rtt) = ([0u64, 0], [100u64, 100], [1u64, 1]);
+    g.pkt(0, &[0x92, 0x02], t0 + 10, run).await;
+    g.pkt(1, &[0x92, 0x02], t0 + 10, run).await;
+    g.tick(t0 + 1000, false, &mut r, run, &none, &all, &rtt).await;       // probes armed at 101000
+    g.pkt(0, &ka10(t0 + 1000), t0 + 11_000, run).await;                   // RTT = 10 000: accepted
+    g.pkt(1, &ka10(t0 + 1000), t0 + 11_001, run).await;                   // RTT = 10 001: rejected
+    g.pkt(1, &ka10(t0 + 1000), t0 + 11_002, run).await;                   // no probe outstanding
+    g.tick(t0 + 12_000, true, &mut r, run, &none, &all, &rtt).await;      // 1 re-arms (never measured)
+    g.pkt(1, &ka10(t0 + 12_000), t0 + 12_000, run).await;                 // same-ms echo: RTT 0 rejected
+    g.tick(t0 + 13_000, true, &mut r, run, &none, &all, &rtt).await;
+    g.pkt(1, &ka10(t0 + 13_000)[..9], t0 + 13_005, run).await;            // truncated
+    g.tick(t0 + 14_000, false, &mut r, run, &none, &all, &rtt).await;
+    g.tick(t0 + 15_000, false, &mut r, run, &none, &all, &rtt).await;     // 0: 3 000 ms gap not yet exceeded
+    g.tick(t0 + 15_001, false, &mut r, run, &none, &all, &rtt).await;     // off-schedule tick: probe for 0
+    g.pkt(0, &ka10(t0 + 15_001), t0 + 15_003, run).await;                 // RTT 2 after 10 000: overshoot
+    g.mark(0, run).await;
+    g.tick(t0 + 16_000, false, &mut r, run, &none, &all, &rtt).await;     // 0 reconnects, REG2; REG3 planned
+    g.planned.clear();
+    g.pkt(0, &[0x92, 0x02], t0 + 16_020, run).await;
+    g.tick(t0 + 17_000, false, &mut r, run, &none, &all, &rtt).await;     // 0 live again
+    g.ops.push("OEnd".into());
+    g.obs.push(format!("BEnd [{}]", g.sim.conns.iter().map(dump).collect::<Vec<_>>().join(";")));
+    let text = format!("CA {} {} [{}] [{}]", crate::common::zlist(ids.iter().map(|&x| x as i128)), t0,
+        g.ops.join(";"), g.obs.join(";"));
+    run.push("fixed", true, text);
+    Ok(())
+}
+
 fn nt(r: &mut Rng) -> usize {
     match r.below(10) { 0 => 3 + r.below(5) as usize, 1..=7 => 8 + r.below(10) as usize, _ => 18 + r.below(14) as usize }
 }
@@ -448,6 +485,7 @@ pub fn run(seed: u64, tier: &str, out: &Path, extra: &[(String, String)]) -> std
     let ncases = ((if run.thorough() { 900.0 } else { 100.0 }) * scale) as usize;
     let rt = tokio::runtime::Builder::new_current_thread().enable_all().build()?;
     let res: std::io::Result<()> = rt.block_on(async {
+        fixed_case(&mut run).await?;
         for i in 0..ncases {
             let mut r = rng.fork(i as u64);
             let style = match r.below(20) { 0..=2 => 0, 3..=7 => 1, 8..=12 => 2, 13..=15 => 3, 16..=17 => 4, _ => 5 };
